@@ -458,7 +458,7 @@ impl GeographicDiversityEnforcer {
         *self.region_counts.entry(region).or_insert(0) += 1;
     }
 
-    fn _remove(&mut self, region: GeographicRegion) {
+    fn remove(&mut self, region: GeographicRegion) {
         if let Some(count) = self.region_counts.get_mut(&region) {
             *count = count.saturating_sub(1);
         }
@@ -527,6 +527,8 @@ pub struct DhtCoreEngine {
     ip_diversity_enforcer: Arc<RwLock<IPDiversityEnforcer>>,
     eviction_manager: Arc<RwLock<EvictionManager>>,
     geographic_diversity_enforcer: Arc<RwLock<GeographicDiversityEnforcer>>,
+    /// Diversity slots each routing-table entry took at admission (given back on removal)
+    admitted_slots: Arc<RwLock<HashMap<NodeId, (Option<IpAddr>, Option<GeographicRegion>)>>>,
 
     // Network query components
     /// Transport handle for sending messages to remote peers
@@ -600,6 +602,7 @@ impl DhtCoreEngine {
             ip_diversity_enforcer,
             eviction_manager,
             geographic_diversity_enforcer,
+            admitted_slots: Arc::new(RwLock::new(HashMap::new())),
             transport: None,
             pending_requests: Arc::new(RwLock::new(LruCache::new(
                 NonZeroUsize::new(MAX_PENDING_DHT_REQUESTS)
@@ -1216,6 +1219,7 @@ impl DhtCoreEngine {
         // Remove from routing table
         let mut routing = self.routing_table.write().await;
         routing.remove_node(&failed_node);
+        self.release_admitted_slots(&failed_node).await;
 
         // Schedule repairs for affected data
         let _replication = self.replication_manager.write().await;
@@ -1234,6 +1238,7 @@ impl DhtCoreEngine {
             let mut routing = self.routing_table.write().await;
             routing.remove_node(node_id);
         }
+        self.release_admitted_slots(node_id).await;
 
         // 2. Update security metrics based on eviction reason
         let reason_str = match &reason {
@@ -1327,6 +1332,29 @@ impl DhtCoreEngine {
         }
     }
 
+    async fn release_slots(&self, ip: Option<IpAddr>, region: Option<GeographicRegion>) {
+        if let Some(ip) = ip {
+            let mut enforcer = self.ip_diversity_enforcer.write().await;
+            if let Ok(analysis) = enforcer.analyze_unified(ip) {
+                enforcer.remove_unified(&analysis);
+            }
+        }
+        if let Some(region) = region {
+            self.geographic_diversity_enforcer
+                .write()
+                .await
+                .remove(region);
+        }
+    }
+
+    /// Give back the diversity slots a routing-table entry took when it was admitted
+    async fn release_admitted_slots(&self, node_id: &NodeId) {
+        let slots = self.admitted_slots.write().await.remove(node_id);
+        if let Some((ip, region)) = slots {
+            self.release_slots(ip, region).await;
+        }
+    }
+
     /// Add a node to the DHT with security checks
     pub async fn add_node(&mut self, node: NodeInfo) -> Result<()> {
         // 1. Security Check: Close Group Validator
@@ -1339,7 +1367,16 @@ impl DhtCoreEngine {
             }
         }
 
+        // The local node is never admitted; a peer that is already admitted is refreshed:
+        // it gives its old slots back and is admitted again under its (possibly new) address.
+        if node.id == self.node_id {
+            return Ok(());
+        }
+        self.release_admitted_slots(&node.id).await;
+
         // 2. Security Check: IP Diversity (both IPv4 and IPv6)
+        let mut ip_slots: Option<IpAddr> = None;
+        let mut region_slot: Option<GeographicRegion> = None;
         {
             // Parse IP address from node.address string
             // address comes as "ip:port" or just "ip"
@@ -1363,6 +1400,7 @@ impl DhtCoreEngine {
                             );
                             anyhow::anyhow!("IP diversity tracking failed: {e:?}")
                         })?;
+                        ip_slots = Some(ip);
                     }
                     Err(e) => {
                         tracing::debug!("Could not analyze IP {:?}: {:?}", ip, e);
@@ -1381,6 +1419,8 @@ impl DhtCoreEngine {
                 let region = GeographicRegion::from_ip(ip);
                 let mut enforcer = self.geographic_diversity_enforcer.write().await;
                 if !enforcer.can_accept(region) {
+                    drop(enforcer);
+                    self.release_slots(ip_slots, None).await;
                     tracing::warn!(
                         "Node rejected due to geographic diversity limits: {:?} in region {:?}",
                         ip,
@@ -1391,12 +1431,21 @@ impl DhtCoreEngine {
                     ));
                 }
                 enforcer.add(region);
+                region_slot = Some(region);
             }
         }
 
-        // 4. Add to routing table
-        let mut routing = self.routing_table.write().await;
-        routing.add_node(node)?;
+        // 4. Add to routing table; a failed insert consumes no slots
+        let node_id = node.id.clone();
+        let inserted = self.routing_table.write().await.add_node(node);
+        if let Err(e) = inserted {
+            self.release_slots(ip_slots, region_slot).await;
+            return Err(e);
+        }
+        self.admitted_slots
+            .write()
+            .await
+            .insert(node_id, (ip_slots, region_slot));
 
         // 5. Update Metrics
         // (Placeholder: Add metric for new node joining if available)
